@@ -20,6 +20,22 @@ CHECKS={
    "All histories up to the bound of appends (including multi-unit entries), batch appends, consuming and peeking reads, rejected ops, and reopen (same process) / restart events; StrictlyAtOnce is compared exactly, AtLeastOnce for no-loss/no-reorder with bounded redelivery; counts are compared as well."),
  "C02": seq("C02", BFS+"every non-consuming op applied to every reached state and compared differentially (with / without the op) on drain and restart+drain suffixes; peek vs immediately following consuming read",
    "At every state reached by the bounded BFS over mutating ops (appends, batch appends, consuming reads, one restart), every peek (read_next / batch_read with checkpoint=false, 4 budgets) and every offset-addressed read (4-8 offsets incl. 0, mid-entry, last byte, past the end; checkpoint true and false) is executed and (ii) the observations of a following drain of all topics, and of restart + drain, must equal those of the same suffix without the op (results and counts), (iii) a peek must return exactly what the immediately following consuming read with the same arguments returns, (iv) offset reads may only return appended entries of the topic in append order, the first possibly a proper suffix. The reclamation-bookkeeping clause is decided by C12's exploration (peeks are in its alphabet)."),
+ "C07": dict(engine="walmc-crash", category="model_checking", design="C07",
+   technique="exhaustive crash-point enumeration: every prefix of the recorded I/O trace of every bounded workload (and every subset of an in-flight io_uring batch) materialised and recovered by the real engine",
+   text="Every workload of up to 3 (quick) / 4 (thorough) ops over appends (one-byte, half-block, multi-unit), batch appends (single- and multi-block), peeks and one restart is executed once with the cfg-guarded I/O recorder on; for every crash point (after each recorded mutation: block writes, file creation steps, index/marker tmp-write and rename; inside an io_uring batch every subset of its writes) the directory image is rebuilt from the trace, opened by the real recovery code and drained. Recovery must succeed, and each topic must yield the acknowledged appends in order followed by at most entries of the op in flight.",
+   note="Trusted: the process-crash model (completed syscalls persist, a single write is atomic), the recorder hooks (conformance-checked: replaying the full trace must reproduce the workload's final directory), the materialiser. Bounded by the workload alphabet/depth; small build-time geometry."),
+ "C08": dict(engine="walmc-crash", category="model_checking", design="C08",
+   technique="exhaustive crash-point enumeration restricted to the inside of one batch append: all subsets of the batch's independent writes, both write paths",
+   text="Batch shapes of 2..6 entries (all 2^n subsets of landed writes) and 7..12 entries (thorough; prefixes, suffixes, single inclusions/omissions) spanning 1-3 blocks, preceded by 0-2 entries, on the io_uring and the sequential (mmap) path; oracle: recovered entries of the batch are none or all. The unchanged tree violates this by construction (no commit record): recorded as known finding K-C08-torn-batch, matched only for a crash strictly inside the batch call whose recovered part is an order-preserving strict subset.",
+   note="Same trusted base as C07."),
+ "C09": dict(engine="walmc-crash", category="model_checking", design="C09",
+   technique="exhaustive crash-point enumeration over histories mixing appends, read_next and batch reads (sealed and tail positions, one restart), cursor oracle per consistency mode",
+   text="From two roots (tail-only, sealed block + tail) every op sequence up to 3 (quick) / 4 (thorough) with at least one consuming read; for every crash point the recovered topic must equal the acknowledged log from a cursor position that is exactly the acknowledged one in StrictlyAtOnce (the read in flight may go either way), and in AtLeastOnce lies at most persist_every entries behind it for read_next-only histories and never ahead (no skip).",
+   note="Same trusted base as C07."),
+ "C10": dict(engine="walmc-crash", category="model_checking", design="C10",
+   technique="exhaustive power-loss state enumeration: every trace prefix x every subset of mutations not yet covered by a sync (writes without O_SYNC/flush, renames without directory sync)",
+   text="FsyncSchedule::SyncEach, both backends, every workload of up to 3 (quick) / 4 (thorough) ops over appends, batch appends and consuming reads; a power-loss state keeps all synced mutations and any subset of the unsynced ones; acknowledged appends must be readable and acknowledged StrictlyAtOnce consumption must be reflected.",
+   note="Trusted: the durability rules (a write is durable if O_SYNC or followed by a flush/fsync of its file; a rename after a directory sync; file creation as soon as it happened - the harness-created namespace directory case is assumed, see DESIGN.md C10). These rules are a model of the file system."),
  "C12": seq("C12", BFS+"background reclaimer gated (one loop iteration with deletions per ReclaimTick), each execution in a pristine forked process, FIFO model in-process and after restart",
    "Histories that fully allocate a file in the small geometry (4 blocks per file) from prepared roots, then all sequences up to the bound of consuming reads of both APIs, empty polls, peeks, reclaim ticks and a restart; every reached state is additionally followed by [reclaim tick, drain all] and [reclaim tick, restart, drain all]. Any unconsumed entry that became unreadable (in process or after restart) is a violation; so is a redelivery after restart in StrictlyAtOnce mode."),
  "C13": seq("C13", BFS+"2-3 live instances (distinct keys / same key in distinct data dirs) in one pristine process per execution, per-instance FIFO/count/marker model, reclaimer gated",
@@ -43,7 +59,7 @@ m={"version":1,
  "hooks":{"guard":"walrus_verif","enable":"RUSTFLAGS=\"--cfg walrus_verif\" plus WALRUS_VERIF_* geometry variables (set by /verif/engines/build.sh for every engine build)",
    "baseline_off_cmd":"cd /repo && cargo nextest run --workspace --no-fail-fast --test-threads 8 --offline || cargo test --workspace --no-fail-fast --offline",
    "source_commits":hook_commits,"add_only":True},
- "engines":[{"name":"walmc-seq","path":"engines/walmc","serves_properties":[i for i in CHECKS if CHECKS[i]["engine"]=="walmc-seq"],"kind_free_text":"explicit-state BFS over API histories on the real engine (E1)"}],
+ "engines":[{"name":"walmc-crash","path":"engines/walmc/src/crash.rs","serves_properties":["C07","C08","C09","C10"],"kind_free_text":"crash / power-loss state enumeration from recorded I/O traces on the real engine (E2)"},{"name":"walmc-seq","path":"engines/walmc","serves_properties":[i for i in CHECKS if CHECKS[i]["engine"]=="walmc-seq"],"kind_free_text":"explicit-state BFS over API histories on the real engine (E1)"}],
  "checks":[{"property_id":i,"quick_cmd":cmd(i,"quick"),"thorough_cmd":cmd(i,"thorough"),"evidence_file":f"/verif/evidence/{i}.json",
             "replay_cmd_template":"./check --replay {path}","engine":c["engine"],
             "level_claimed":{"category":c["category"],"text":c["text"],"design_ref":"DESIGN.md section "+c["design"]},
